@@ -12,6 +12,7 @@ mod c04;
 mod c05;
 mod c06;
 mod c07;
+mod c07s;
 mod c08;
 mod c09;
 mod c10;
